@@ -1,4 +1,166 @@
-//! `render` endpoint (filled in with C19).
-pub fn dispatch(_fields: &[&str]) -> String {
-    "BAD\tnot implemented".into()
+//! `render` endpoint (C19): build a diagnostic value from plain data through the public API of the
+//! `mamba` crate and return `format!("{err}")`.
+//!
+//! request : `render <kind> <pos> <hex msg> <causes> <source> <path> [<extra>]`
+//!   kind   : `type`   TypeErr::new(pos, msg) [.with_cause(m, p)]* .with_source(src, path)
+//!            `typenp` TypeErr::new_no_pos(msg) [.with_cause]* .with_source           (pos field ignored)
+//!            `parse`  ParseErr { pos, msg, source, path, causes } (all fields are public)
+//!            `parsec` parse::result::custom(msg, pos) [.with_cause(m, p)]* .with_source
+//!            `gen`    UnimplementedErr { position, msg, source, path }               (causes ignored)
+//!            `lex`    LexErr: not constructible from outside the crate (`parse::lex` is private);
+//!                     answered only when the harness is built with `--cfg mamba_verif_lexerr` against
+//!                     a tree that carries the hook of repo_patches/c19-lexerr-hook.diff
+//!   pos    : `sl,sc,el,ec` (usize each) or `~`
+//!   causes : `-` or `;`-separated `<hex msg>:sl,sc,el,ec`
+//!   source : `~` or `s:<hex>`          path: `~` or `s:<hex>`
+//!   extra  : lex only: `~` (no token) or hex of an identifier (token = Id(name), width = its byte length)
+//! response: `OK <hex rendered text>`; a panic is caught by main.rs (`PANIC <hex msg>`).
+#![allow(unexpected_cfgs)]
+use std::path::PathBuf;
+
+use mamba::check::result::TypeErr;
+use mamba::common::position::{CaretPos, Position};
+use mamba::common::result::{Cause, WithCause, WithSource};
+use mamba::generate::result::UnimplementedErr;
+use mamba::parse::result::{custom, ParseErr};
+
+use crate::sexp::{hex, unhex};
+
+fn pos(s: &str) -> Result<Position, String> {
+    let n: Result<Vec<usize>, _> = s.split(',').map(|x| x.parse::<usize>()).collect();
+    match n {
+        Ok(v) if v.len() == 4 => Ok(Position::new(CaretPos::new(v[0], v[1]), CaretPos::new(v[2], v[3]))),
+        _ => Err(format!("bad position {s}")),
+    }
+}
+
+fn opt_str(s: &str) -> Result<Option<String>, String> {
+    if s == "~" {
+        Ok(None)
+    } else if let Some(h) = s.strip_prefix("s:") {
+        unhex(h).map(Some).map_err(|e| format!("bad hex: {e}"))
+    } else {
+        Err(format!("bad optional string {s}"))
+    }
+}
+
+fn causes(s: &str) -> Result<Vec<(String, Position)>, String> {
+    if s == "-" || s.is_empty() {
+        return Ok(vec![]);
+    }
+    s.split(';')
+        .map(|c| {
+            let (m, p) = c.split_once(':').ok_or_else(|| format!("bad cause {c}"))?;
+            Ok((unhex(m).map_err(|e| format!("bad hex: {e}"))?, pos(p)?))
+        })
+        .collect()
+}
+
+#[cfg(mamba_verif_lexerr)]
+fn lex(p: &str, msg: &str, source: &Option<String>, path: &Option<PathBuf>, extra: Option<&str>) -> String {
+    let n: Vec<usize> = p.split(',').filter_map(|x| x.parse::<usize>().ok()).collect();
+    if n.len() < 2 {
+        return "BAD\tposition".into();
+    }
+    let token = match extra {
+        Some("~") | None => None,
+        Some(h) => unhex(h).ok(),
+    };
+    let text = mamba::parse::verif_render_lex_err(n[0], n[1], token.as_deref(), msg, source, path);
+    format!("OK\t{}", hex(&text))
+}
+
+#[cfg(not(mamba_verif_lexerr))]
+fn lex(_p: &str, _msg: &str, _source: &Option<String>, _path: &Option<PathBuf>, _extra: Option<&str>) -> String {
+    "BAD\tno-lexerr-hook".into()
+}
+
+pub fn dispatch(fields: &[&str]) -> String {
+    if fields.len() < 6 {
+        return "BAD\tfields".into();
+    }
+    let kind = fields[0];
+    let msg = match unhex(fields[2]) {
+        Ok(m) => m,
+        Err(e) => return format!("BAD\tmsg {e}"),
+    };
+    let cs = match causes(fields[3]) {
+        Ok(c) => c,
+        Err(e) => return format!("BAD\t{e}"),
+    };
+    let source = match opt_str(fields[4]) {
+        Ok(s) => s,
+        Err(e) => return format!("BAD\t{e}"),
+    };
+    let path = match opt_str(fields[5]) {
+        Ok(s) => s.map(PathBuf::from),
+        Err(e) => return format!("BAD\t{e}"),
+    };
+    if kind == "lex" {
+        return lex(fields[1], &msg, &source, &path, fields.get(6).copied());
+    }
+    let position = if fields[1] == "~" {
+        None
+    } else {
+        match pos(fields[1]) {
+            Ok(p) => Some(p),
+            Err(e) => return format!("BAD\t{e}"),
+        }
+    };
+    let need = |p: Option<Position>| p.ok_or_else(|| "BAD\tposition required".to_string());
+    let text = match kind {
+        "type" => {
+            let p = match need(position) {
+                Ok(p) => p,
+                Err(e) => return e,
+            };
+            let mut err = TypeErr::new(p, &msg);
+            for (m, cp) in &cs {
+                err = err.with_cause(m, *cp);
+            }
+            format!("{}", err.with_source(&source, &path))
+        }
+        "typenp" => {
+            let mut err = TypeErr::new_no_pos(&msg);
+            for (m, cp) in &cs {
+                err = err.with_cause(m, *cp);
+            }
+            format!("{}", err.with_source(&source, &path))
+        }
+        "parse" => {
+            let p = match need(position) {
+                Ok(p) => p,
+                Err(e) => return e,
+            };
+            let err = ParseErr {
+                pos: p,
+                msg,
+                source: source.clone(),
+                path: path.clone(),
+                causes: cs.iter().map(|(m, cp)| Cause::new(m, *cp)).collect(),
+            };
+            format!("{err}")
+        }
+        "parsec" => {
+            let p = match need(position) {
+                Ok(p) => p,
+                Err(e) => return e,
+            };
+            let mut err = custom(&msg, p);
+            for (m, cp) in &cs {
+                err = err.with_cause(m, *cp);
+            }
+            format!("{}", err.with_source(&source, &path))
+        }
+        "gen" => {
+            let p = match need(position) {
+                Ok(p) => p,
+                Err(e) => return e,
+            };
+            let err = UnimplementedErr { position: p, msg, source: None, path: None };
+            format!("{}", err.with_source(&source, &path))
+        }
+        other => return format!("BAD\tunknown kind {other}"),
+    };
+    format!("OK\t{}", hex(&text))
 }
